@@ -64,6 +64,23 @@ TRACKED_USER = ['t.txt', 'm.txt', 'del.txt', 'dir/a.txt', 'dir/b.txt', 'dir/sub/
 TEN = ''.join(f'line{i}\n' for i in range(1, 11))
 
 
+def add_user_history(t):
+    """Branches with histories of their own, made by the user before xvc enters: `behind` stays at the root commit (an
+    ancestor of every later HEAD), `div` gets a commit of its own (adds div.txt, edits dir/b.txt) and main another one
+    afterwards (diverged). Together with `other` (at main's tip) and `side` (main's tip + one user commit: ahead) every
+    relation a --to-branch target can have to HEAD is present."""
+    t.git('branch', 'behind')
+    t.git('checkout', '-q', '-b', 'div')
+    t.write('div.txt', 'only on div\n')
+    t.write('dir/b.txt', f'dir/b.txt\nedited on div\n{TEN}')
+    t.git('add', 'div.txt', 'dir/b.txt')
+    t.git('commit', '-q', '-m', 'user commit on div')
+    t.git('checkout', '-q', 'main')
+    t.write('main2.txt', 'second user commit on main\n')
+    t.git('add', 'main2.txt')
+    t.git('commit', '-q', '-m', 'user second')
+
+
 def build_template(chk, xvc):
     t = Sandbox(chk.scratch, 'c15-template', xvc)
     t.git('init', '-q', '-b', 'main')
@@ -71,6 +88,7 @@ def build_template(chk, xvc):
         t.write(p, ('# user rules\n*.tmp\n' if p.endswith('.gitignore') else f'{p}\n{TEN}'))
     t.git('add', '-A')
     t.git('commit', '-q', '-m', 'user root')
+    add_user_history(t)
     rc, out, err = t.x('init')
     if rc != 0:
         chk.fatal('xvc init failed in the template repository', out + err)
@@ -100,6 +118,7 @@ def build_plain_template(chk, xvc):
         t.write(p, ('# user rules\n*.tmp\n' if p.endswith('.gitignore') else f'{p}\n{TEN}'))
     t.git('add', '-A')
     t.git('commit', '-q', '-m', 'user root')
+    add_user_history(t)
     t.git('tag', 'v0')
     t.git('branch', 'other')
     t.git('checkout', '-q', '-b', 'side')
@@ -125,6 +144,7 @@ def build_nested_template(chk, xvc, plain=False):
         t.write(p, ('# user rules\n*.tmp\n' if p.endswith('.gitignore') else f'{p}\n{TEN}'))
     t.git('add', '-A')
     t.git('commit', '-q', '-m', 'user root')
+    add_user_history(t)
     if not plain:
         rc, out, err = t.x('init', cwd=proj)
         if rc != 0 or not os.path.isdir(os.path.join(proj, '.xvc')):
@@ -478,6 +498,31 @@ def gen_init_case_nested(rng, chk):
     return {'layout': 'nested', 'cwd': '', 'ops': [list(o) for o in ops], 'cmd': ['init'], 'readonly': False, 'setting': {}}
 
 
+# ---- --to-branch stream: every relation the named branch can have to HEAD
+
+TB_TARGETS = ['newb', 'other', 'behind', 'side', 'div', '@current']
+
+
+def gen_case_tobranch(rng, chk, nested):
+    """a generated case (flat or nested) whose setting is `--to-branch <t>`, t drawn from: a new name, `other` (at main's
+    tip), `behind` (ancestor), `side` (ahead: a user commit of its own), `div` (diverged), the current branch; the user is
+    on main, on other, on side (then main/other are behind HEAD) or detached. The relation actually found is counted from
+    the observation (to_branch_target:*)."""
+    c = gen_case_nested(rng, chk) if nested else gen_case(rng, chk)
+    ops = [o for o in c['ops'] if o[0] not in ('detach', 'branch')]
+    k = sum(1 for o in ops if o[0] == 'stash')
+    r = rng.random()
+    here = [] if r < 0.5 else [['branch', 'other']] if r < 0.65 else [['branch', 'side']] if r < 0.85 else [['detach']]
+    c['ops'] = ops[:k] + here + ops[k:]
+    t = rng.choice(TB_TARGETS)
+    if t == '@current':
+        t = here[0][1] if here and here[0][0] == 'branch' else 'main'
+    c['setting'] = {'to_branch': t}
+    c['stream'] = 'to-branch'
+    chk.count('stream:to-branch' + (':nested' if nested else ''))
+    return c
+
+
 def argv_of(case):
     s = case['setting']
     a = []
@@ -527,7 +572,8 @@ def ls_tree(sb, rev):
     return t
 
 
-def observe(sb, trees_for=None):
+def observe(sb, trees_for=None, known_trees=None):
+    """known_trees: trees already listed for some commit ids (commits are immutable, no need to ask git again)"""
     o = {}
     rc, out, err = sb.git('symbolic-ref', '-q', '--short', 'HEAD')
     rc2, sha, err = sb.git('rev-parse', '-q', '--verify', 'HEAD')
@@ -558,7 +604,7 @@ def observe(sb, trees_for=None):
     shas = set(s for n, s in refs.items() if n.startswith('refs/heads/') or n.startswith('refs/tags/'))
     if o['head_sha']:
         shas.add(o['head_sha'])
-    o['trees'] = {s: ls_tree(sb, s) for s in (shas if trees_for is None else trees_for)}
+    o['trees'] = {s: (known_trees[s] if known_trees and s in known_trees else ls_tree(sb, s)) for s in (shas if trees_for is None else trees_for)}
     return o
 
 
@@ -579,10 +625,53 @@ def commit_chain(sb, tip, known):
     return chain, cur
 
 
+def ref_moves(sb, pre, post, pfx):
+    """For every ref that existed before and has another value now (and for a detached HEAD that moved): is the old tip an
+    ancestor of the new tip, is the old tip still reachable from some ref or HEAD, which paths that xvc does not own differ
+    between the trees of the two tips. Plain git plumbing on the real repository (no model involved)."""
+    moves = []
+
+    def reachable(sha):
+        if sb.git('for-each-ref', '--contains', sha, '--format=%(refname)')[1].strip():
+            return True
+        return bool(post['head_sha']) and sb.git('merge-base', '--is-ancestor', sha, post['head_sha'])[0] == 0
+    cands = [(r, pre['refs'][r], post['refs'].get(r)) for r in sorted(pre['refs']) if r != 'refs/stash']
+    if pre['head'][0] == 'detached' and pre['head_sha'] and post['head'][0] == 'detached':
+        cands.append(('HEAD (detached)', pre['head_sha'], post['head_sha']))
+    for r, old, new in cands:
+        if old == new:
+            continue
+        m = {'ref': r, 'old': old, 'new': new, 'old_reachable': reachable(old)}
+        if new is not None:
+            m['old_is_ancestor_of_new'] = sb.git('merge-base', '--is-ancestor', old, new)[0] == 0
+            to = pre['trees'][old] if old in pre['trees'] else ls_tree(sb, old)
+            tn = post['trees'][new] if new in post['trees'] else ls_tree(sb, new)
+            m['foreign_paths_changed'] = sorted(p for p in set(to) | set(tn) if not is_xvc_path(p, pfx) and to.get(p) != tn.get(p))
+        moves.append(m)
+    return moves
+
+
+def to_branch_kind(sb, pre, name):
+    """relation of the branch named by --to-branch to HEAD before the command: new | current | at-HEAD | behind | ahead | diverged"""
+    sha = pre['refs'].get('refs/heads/' + name)
+    if sha is None:
+        return 'new'
+    if pre['head'] == ['branch', name]:
+        return 'current'
+    h = pre['head_sha']
+    if sha == h:
+        return 'at-HEAD'
+    if sb.git('merge-base', '--is-ancestor', sha, h)[0] == 0:
+        return 'behind'
+    if sb.git('merge-base', '--is-ancestor', h, sha)[0] == 0:
+        return 'ahead'
+    return 'diverged'
+
+
 # ------------------------------------------------------------------------------------------------
 # the oracle: what the property text demands of (pre, post); independent of the model
 
-def oracle(case, pre, post, chain, base_reached):
+def oracle(case, pre, post, chain, base_reached, refmoves=()):
     msgs = []
     s = case['setting']
     mode = git_mode(case)
@@ -630,6 +719,19 @@ def oracle(case, pre, post, chain, base_reached):
             continue
         if pre['refs'].get(r) != post['refs'].get(r):
             msgs.append(f"ref {r}: {pre['refs'].get(r)} -> {post['refs'].get(r)}")
+    # the ref clause in full, for EVERY ref that existed before (the branch named by --to-branch and the current branch
+    # included): it is unchanged, or xvc only added commits on top of it — the old tip is an ancestor of the new tip,
+    # the files xvc does not own are the same in both tips, and no commit that was reachable stops being reachable
+    for m in refmoves:
+        if m['new'] is None:
+            msgs.append(f"ref {m['ref']} (was {m['old'][:8]}) was deleted")
+        else:
+            if not m['old_is_ancestor_of_new']:
+                msgs.append(f"ref {m['ref']}: {m['old'][:8]} -> {m['new'][:8]}, the old tip is not an ancestor of the new tip (the ref lost the commits it had)")
+            if m['foreign_paths_changed']:
+                msgs.append(f"ref {m['ref']}: {m['old'][:8]} -> {m['new'][:8]}, files xvc does not own differ between the old and the new tip: {m['foreign_paths_changed'][:8]}")
+        if not m['old_reachable']:
+            msgs.append(f"commit {m['old'][:8]} (tip of {m['ref']} before the command) is not reachable from any ref any more")
     # the branch xvc left behind when asked to switch must not have moved
     if pre['head'][0] == 'branch' and post['head'] != pre['head']:
         r = 'refs/heads/' + pre['head'][1]
@@ -790,7 +892,7 @@ def run_case(chk, tmpl, name, case):
                 f.write(body)
         pre = observe(sb)
         rc, out, err = sb.x(*argv_of(case), env=env, cwd=cwd)
-        post = observe(sb)
+        post = observe(sb, known_trees=pre['trees'])
         s = case['setting']
         base = pre['head_sha']
         if s.get('from_ref') and post['head'] == ['branch', s['from_ref']]:
@@ -798,8 +900,10 @@ def run_case(chk, tmpl, name, case):
         known = set(pre['trees']) | set(pre['refs'].values())
         chain, reached = commit_chain(sb, post['head_sha'], known)
         base_reached = (reached == base) or (post['head_sha'] == base)
-        msgs = oracle(case, pre, post, chain, base_reached)
-        return {'case': case, 'pre': pre, 'post': post, 'chain': chain, 'oracle': msgs, 'rc': rc,
+        refmoves = ref_moves(sb, pre, post, pfx)
+        tbk = to_branch_kind(sb, pre, s['to_branch']) if s.get('to_branch') else None
+        msgs = oracle(case, pre, post, chain, base_reached, refmoves)
+        return {'case': case, 'pre': pre, 'post': post, 'chain': chain, 'oracle': msgs, 'rc': rc, 'refmoves': refmoves, 'to_branch_kind': tbk,
                 'stderr': err[-600:], 'stdout': out[-300:]}
     finally:
         sb.cleanup()
@@ -850,6 +954,8 @@ def signature(case, msgs):
         sig = {'finding': 'user-staged-changes-left-in-stash'}
     elif any('contains user files' in m for m in msgs):
         sig = {'finding': 'user-file-in-xvc-commit'}
+    elif any('not an ancestor of the new tip' in m or 'not reachable from any ref' in m or 'was deleted' in m for m in msgs):
+        sig = {'finding': 'ref-lost-commits'}
     return sig
 
 
@@ -905,6 +1011,18 @@ CORPUS = [
      'cmd': ['file', 'track', 'data/d1.bin'], 'readonly': False, 'setting': {}},
     {'layout': 'nested', 'cwd': '', 'ops': [['edit', '.gitignore', '# user rules\n*.tmp\n*.bak\n'], ['untracked', 'newdir/.gitignore', '*.cache\n']],
      'cmd': ['file', 'track', 'data/d1.bin'], 'readonly': False, 'setting': {'cfg': ['git.auto_commit=false', 'git.auto_stage=true']}},
+    # ---- --to-branch naming a branch that EXISTS (git refuses `checkout -b`; every ref must keep its value)
+    # seeded C15-3, minimised: `side` is ahead of HEAD by a user commit; no user state needed, any command (also read-only)
+    {'ops': [], 'cmd': ['file', 'track', 'data/d1.bin'], 'readonly': False, 'setting': {'to_branch': 'side'}},
+    {'ops': [], 'cmd': ['file', 'list'], 'readonly': True, 'setting': {'to_branch': 'side'}},
+    # diverged target with staged user work; target behind HEAD (user on side); target = current branch; target at HEAD
+    {'ops': [['stage_new', 'new1.txt', 'n\n']], 'cmd': ['pipeline', 'new', '--pipeline-name', 'p1'], 'readonly': False, 'setting': {'to_branch': 'div'}},
+    {'ops': [['branch', 'side']], 'cmd': ['file', 'track', 'data/d1.bin'], 'readonly': False, 'setting': {'to_branch': 'main'}},
+    {'ops': [['stage_mod', 't.txt', 'changed\n']], 'cmd': ['file', 'track', 'data/d1.bin'], 'readonly': False, 'setting': {'to_branch': 'main'}},
+    {'ops': [['detach']], 'cmd': ['file', 'track', 'data/d1.bin'], 'readonly': False, 'setting': {'to_branch': 'behind'}},
+    {'layout': 'nested', 'cwd': '', 'ops': [['stage_new', 'notes.txt', 'user notes\n']], 'cmd': ['file', 'track', 'data/d1.bin'], 'readonly': False,
+     'setting': {'to_branch': 'div'}},
+    {'layout': 'nested', 'cwd': 'data', 'ops': [], 'cmd': ['file', 'track', 'd1.bin'], 'readonly': False, 'setting': {'to_branch': 'side'}},
     # `xvc init` in proj/ with staged work outside it (three handle_git_automation calls)
     {'layout': 'nested', 'cwd': '', 'ops': [['stage_new', 'notes.txt', 'user notes\n'], ['stage_mod', 'm.txt', 'more text\n']], 'cmd': ['init'],
      'readonly': False, 'setting': {}},
@@ -920,6 +1038,9 @@ def describe(r):
             'git_status_before': r['pre']['status'], 'git_status_after': r['post']['status'],
             'stash_before': len(r['pre']['stash']), 'stash_after': len(r['post']['stash']),
             'new_commits': [{'subject': c['subject'], 'changed': c['changed']} for c in r['chain']],
+            'refs_before': {k: v[:10] for k, v in r['pre']['refs'].items()}, 'refs_after': {k: v[:10] for k, v in r['post']['refs'].items()},
+            'head_before': r['pre']['head'], 'head_after': r['post']['head'],
+            'ref_moves': r.get('refmoves'), 'to_branch_target_was': r.get('to_branch_kind'),
             'xvc_rc': r['rc'], 'xvc_stderr': r['stderr'], 'oracle': r['oracle']}
 
 
@@ -962,6 +1083,7 @@ def run(chk: Check):
     ninit = 25 if quick else 250
     nnested = 150 if quick else 1300
     nnested_init = 14 if quick else 140
+    ntb, ntb_nested = (44, 22) if quick else (400, 200)
     chk.extra['rule'] = (f'corpus ({len(CORPUS)} fixed cases: F4 on its four exit paths, detached HEAD, pathspec) + {len(KNOWN_REPLAYS)} known-finding replays (oracle only) + '
                          f'{ncases} generated cases (+ {ninit} `xvc init` cases in a plain git repository, three handle_git_automation calls) = random user state (pre-existing stash entries 0-2, detached HEAD / other branch, staged new/modified/deleted files, unstaged edits and deletions, '
                          'untracked files, user files named *.gitignore/*.xvcignore, user edits of real ignore files, rejecting pre-commit hook) x one of '
@@ -971,10 +1093,15 @@ def run(chk: Check):
                          f'NESTED LAYOUT (git repository at the top, `xvc init` in the subdirectory {NESTED}, user files inside and outside it, the user\'s own .gitignore/.xvcignore files outside it are user files): '
                          f'{sum(1 for c in CORPUS if c.get("layout") == "nested")} of the corpus cases (seeded C15-1 minimised and as demonstrated first) + {nnested} generated cases (commands typed in {NESTED} or {NESTED}data/; '
                          'staged changes all outside / all inside / on both sides of the Xvc root / none, see generator_distribution nested:staged=*) '
-                         f'+ {nnested_init} `xvc init` cases run in {NESTED} of a plain git repository; same oracle evaluated at the top of the git work tree, model run with `root proj`.')
+                         f'+ {nnested_init} `xvc init` cases run in {NESTED} of a plain git repository; same oracle evaluated at the top of the git work tree, model run with `root proj`. '
+                         f'--TO-BRANCH STREAM: every template carries branches other (at main\'s tip), behind (ancestor), side (ahead by a user commit), div (diverged, own commit touching user files); '
+                         f'{ntb} flat + {ntb_nested} nested generated cases with --to-branch drawn from {{new name, other, behind, side, div, the current branch}}, the user on main/other/side/detached '
+                         '(relation of the target to HEAD counted from the observation: to_branch_targets); oracle ref clause: every pre-existing ref is unchanged or fast-forwarded by commits that touch only xvc paths, no old tip becomes unreachable.')
     # the flat streams first (unchanged for a given seed), then the nested ones
     cases = list(CORPUS) + [gen_case(chk.rng, chk) for _ in range(ncases)] + [gen_init_case(chk.rng, chk) for _ in range(ninit)]
     cases += [gen_case_nested(chk.rng, chk) for _ in range(nnested)] + [gen_init_case_nested(chk.rng, chk) for _ in range(nnested_init)]
+    # then the --to-branch stream
+    cases += [gen_case_tobranch(chk.rng, chk, False) for _ in range(ntb)] + [gen_case_tobranch(chk.rng, chk, True) for _ in range(ntb_nested)]
     for c in CORPUS:
         if c.get('layout') == 'nested':
             chk.count('layout:nested')
@@ -991,6 +1118,10 @@ def run(chk: Check):
             chk.nontrivial.add(hashlib.sha1(json.dumps(c, sort_keys=True).encode()).hexdigest())
         chk.count('commits_created:' + str(len(r['chain'])))
         chk.count('git_mode:' + git_mode(c))
+        if r.get('to_branch_kind'):
+            chk.count('to_branch_target:' + r['to_branch_kind'] + (':git-automation-' + git_mode(c) if git_mode(c) != 'commit' else ''))
+        if r.get('refmoves'):
+            chk.count('refs_moved_per_command:' + str(len(r['refmoves'])))
         if c.get('layout') == 'nested':
             chk.count('nested:commits_created:' + str(len(r['chain'])))
             if staged_where(c['ops']) == 'all-outside' and r['chain'] and git_mode(c) == 'commit':
@@ -1002,6 +1133,7 @@ def run(chk: Check):
     chk.tie['streams']['oracle'] = {'cases': len(results), 'failing': sum(1 for r in results if r['oracle']),
                                     'nested_cases': sum(1 for r in results if r['case'].get('layout') == 'nested'),
                                     'nested_failing': sum(1 for r in results if r['case'].get('layout') == 'nested' and r['oracle'])}
+    chk.extra['to_branch_targets'] = {k[len('to_branch_target:'):]: v for k, v in sorted(chk.distribution.items()) if k.startswith('to_branch_target:')}
     chk.extra['nested_layout'] = {k[len('nested:'):]: v for k, v in sorted(chk.distribution.items())
                                   if k.startswith('nested:staged=') or k.startswith('nested:cwd=') or k.startswith('nested:commits_created')
                                   or k == 'nested:all-staged-outside-and-xvc-committed'}
